@@ -43,6 +43,12 @@ CHECKS = {
   note="Trusted: TLC, vlib table bridge. The varint byte codec is below the model (exercised, not modelled).",
   technique="TLA+ lifecycle spec + TLC enumeration replayed on the real codec; TLC trace validation of recorded round trips",
   design_ref="DESIGN.md 5/C01"),
+ "C02": dict(
+  category="exploration",
+  text="WireSoup.tla is a generator grammar (state machine) of malformed inputs: point mutations of every node of a valid profile.proto document tree (value to 0 / dangling id / index past the string table / huge / negative, wrong wire type, bad field number, duplicated or dropped field, truncation, length past the end, over-long varint, packed/unpacked, garbage sub-message), pairs of cross-table value mutations, 8 wrappers (gzip variants, concatenation, empty) and 12 legacy documents x 17 text/binary mutation classes; every terminal state is rendered to bytes and fed to the real ParseData under recover and a watchdog, accepted profiles are written, copied, compacted and rendered in 9 report formats, and TraceParse.tla decides each recorded event: error, or a profile satisfying the validity contract whose follow-ups end in ok/err and which survives a second round trip. Corpus/testdata files and seeded byte noise are included; a sample of inputs also goes through the pprof binary (exit status / panic on stderr).",
+  note="Model-guided generation, not coverage-guided fuzzing; memory safety is outside TLA+. Validity is evaluated by TLC on the rank-compressed shape of the parser's result.",
+  technique="TLA+ generator grammar enumerated by TLC, rendered and fed to the real parser; TLC trace validation of the recorded outcomes",
+  design_ref="DESIGN.md 5/C02"),
 }
 
 NOT_YET = "check not built yet in this session (planned in DESIGN.md section 5)"
